@@ -62,6 +62,14 @@ func (fc *FnCtx) execCall(fr *Frame, st *State, instr ssa.Instruction, c *ssa.Ca
 	return fc.doCall(fr, st, instr, c, fnVal, args)
 }
 
+// noteGhostHit records that a ghost binding ("result of call / invoke ...") met its call site.
+func (fc *FnCtx) noteGhostHit(key string) {
+	if fc.ghostHits == nil {
+		fc.ghostHits = map[string]bool{}
+	}
+	fc.ghostHits[key] = true
+}
+
 func resultType(c *ssa.CallCommon) types.Type {
 	sig := c.Signature()
 	switch sig.Results().Len() {
@@ -146,16 +154,42 @@ func (fc *FnCtx) doCall(fr *Frame, st *State, instr ssa.Instruction, c *ssa.Call
 			}
 		}
 	}
-	if c.IsInvoke() || len(fr.ghostRes) == 0 {
+	if len(fr.ghostRes) == 0 {
 		return res
 	}
-	key0 := ""
-	if cv, ok := fnVal.(*ClosureVal); ok && cv.Fn != nil {
+	key0, keyQ := "", ""
+	if c.IsInvoke() {
+		// methods of the header type parameter have their own binding ("result of invoke M #n", see doInvoke);
+		// calls through any other interface are bound like static calls, keyed "iface.<Method>" (their
+		// ordinals are counted separately from static calls of the same name)
+		if isTypeParam(unalias(c.Value.Type())) {
+			return res
+		}
+		key0 = "call:iface." + c.Method.Name()
+	} else if cv, ok := fnVal.(*ClosureVal); ok && cv.Fn != nil {
 		name := cv.Fn.Name()
 		if i := strings.Index(name, "["); i >= 0 {
 			name = name[:i]
 		}
 		key0 = "call:" + name
+		// a method may also be named with its receiver ("(*Store).Get"), which keeps it apart from
+		// same-named methods of other types; qualified names have their own ordinals
+		if full := funcDisplayName(cv.Fn); strings.Contains(full, ").") {
+			// (*pkg/path.Store[...]).Get -> (*Store).Get
+			tail := full[strings.LastIndex(full, "("):]
+			inner := tail[1:strings.Index(tail, ")")]
+			ptr := ""
+			if strings.HasPrefix(inner, "*") {
+				ptr, inner = "*", inner[1:]
+			}
+			if j := strings.LastIndex(inner, "."); j >= 0 {
+				inner = inner[j+1:]
+			}
+			if k := strings.Index(inner, "["); k >= 0 {
+				inner = inner[:k]
+			}
+			keyQ = "call:(" + ptr + inner + ")" + tail[strings.Index(tail, ")")+1:]
+		}
 	} else if _, isB := c.Value.(*ssa.Builtin); !isB {
 		if fs := fc.fieldSpecFor(c.Value); fs != nil {
 			key0 = "call:" + shortKey(fs.Target) // calls through a func-typed field: keyed by the field name
@@ -171,7 +205,10 @@ func (fc *FnCtx) doCall(fr *Frame, st *State, instr ssa.Instruction, c *ssa.Call
 			}
 		}
 	}
-	if key0 != "" {
+	for _, key0 := range []string{key0, keyQ} {
+		if key0 == "" {
+			continue
+		}
 		ord := fr.invokeN[key0]
 		fr.invokeN[key0]++
 		for idx := 0; idx < 4; idx++ {
@@ -180,6 +217,7 @@ func (fc *FnCtx) doCall(fr *Frame, st *State, instr ssa.Instruction, c *ssa.Call
 			if !ok {
 				continue
 			}
+			fc.noteGhostHit(key)
 			v := res
 			if tv, isT := res.(*TupleVal); isT {
 				if idx >= len(tv.Elems) {
@@ -750,6 +788,7 @@ func (fc *FnCtx) doInvoke(fr *Frame, st *State, instr ssa.Instruction, c *ssa.Ca
 			ord := fr.invokeN[key]
 			fr.invokeN[key]++
 			if g, ok := fr.ghostRes[fmt.Sprintf("%s#%d", key, ord)]; ok {
+				fc.noteGhostHit(fmt.Sprintf("%s#%d", key, ord))
 				return g
 			}
 			if fr.spec != nil && (fr.spec.MayPanic || frameRecovers(fr)) || fc.headerMethodsMayPanic(fr) {
